@@ -43,13 +43,13 @@ type Opaque struct {
 }
 
 type Obj struct {
-	Typ  types.Type
-	Leaf bool
-	V    Value  // leaf
-	Kids []*Obj // struct fields or array elements (lazily created when nil)
-	N    int    // number of kids (arrays may be lazily populated)
-	ID   int
-	Glob bool // created by a package initialiser
+	Typ    types.Type
+	Leaf   bool
+	V      Value  // leaf
+	Kids   []*Obj // struct fields or array elements (lazily created when nil)
+	N      int    // number of kids (arrays may be lazily populated)
+	ID     int
+	Glob   bool // created by a package initialiser
 	Parent *Obj
 	// lock-set monitor
 	Guard string
